@@ -78,7 +78,8 @@ pub fn c02_move<const STEP: usize, const KIND: u8>(inp: &Inp) -> Verdict {
         s.probe != t && s.probe != s.a_sq && s.board.cell(s.probe).occ && !want.occ,
         "C02 witness: a piece is captured because its supporter stepped away"
     );
-    vcover!(
+    vcover_if!(
+        KIND != KIND_PUSH && (STEP < 3 || KIND == KIND_PULL),
         s.probe == t && want.occ && moved.gold != s.gold,
         "C02 witness: an enemy piece is displaced and survives"
     );
@@ -175,9 +176,10 @@ pub fn c12_move<const STEP: usize, const KIND: u8>(inp: &Inp) -> Verdict {
             "C12: pending status inconsistent with the new board (no completion / square occupied)"
         );
     }
-    vcover!(matches!(want, Pending::Push(_, _)), "C12 witness: a push is started");
-    vcover!(matches!(want, Pending::Pull(_, _)), "C12 witness: a possible pull is recorded");
-    vcover!(
+    vcover_if!(KIND != KIND_PUSH && STEP < 3, matches!(want, Pending::Push(_, _)), "C12 witness: a push is started");
+    vcover_if!(KIND != KIND_PUSH && STEP < 3, matches!(want, Pending::Pull(_, _)), "C12 witness: a possible pull is recorded");
+    vcover_if!(
+        KIND == KIND_PULL,
         matches!(want, Pending::None) && s.board.cell(s.a_sq).gold != s.gold,
         "C12 witness: an enemy step counted as pull completion"
     );
@@ -194,7 +196,7 @@ pub fn c12_pass<const STEP: usize, const KIND: u8>(inp: &Inp) -> Verdict {
     let ns = gs.take_action(&Action::Pass);
     let got = pending_of(ns.unwrap_play_phase().push_pull_state());
     assert!(got == Pending::None, "C12: something pending after a pass");
-    vcover!(matches!(s.pending, Pending::Pull(_, _)), "C12 witness: pass with a possible pull open");
+    vcover_if!(KIND == KIND_PULL, matches!(s.pending, Pending::Pull(_, _)), "C12 witness: pass with a possible pull open");
     std::mem::forget(ns);
     std::mem::forget(gs);
     Verdict::Held
@@ -275,6 +277,9 @@ pub fn c13_move<const STEP: usize, const KIND: u8>(inp: &Inp) -> Verdict {
     let before = s.board.all().count_ones();
     let after = nb.all().count_ones();
     assert!(before >= after && before - after <= 1, "C13: a single step removed more than one piece");
+    let mut w_mover = false;
+    let mut w_own = false;
+    let mut w_enemy = false;
     match preview {
         None => assert!(before == after, "C13: preview says no capture but a piece was removed"),
         Some((sq, piece, is_gold)) => {
@@ -286,11 +291,18 @@ pub fn c13_move<const STEP: usize, const KIND: u8>(inp: &Inp) -> Verdict {
             assert!(ty_of(piece) == c.ty, "C13: preview names the wrong piece type");
             assert!(is_gold == c.gold, "C13: preview names the wrong owner");
             assert!(model::is_trap(q), "C13: preview names a non-trap square");
-            vcover!(q == t, "C13 witness: the mover is captured stepping in");
-            vcover!(q != t && c.gold == s.gold, "C13 witness: own piece lost, supporter stepped away");
-            vcover!(q != t && c.gold != s.gold, "C13 witness: enemy piece captured after push/pull");
+            w_mover = q == t;
+            w_own = q != t && c.gold == s.gold;
+            w_enemy = q != t && c.gold != s.gold;
         }
     }
+    vcover!(w_mover, "C13 witness: the mover is captured stepping in");
+    vcover!(w_own, "C13 witness: own piece lost, supporter stepped away");
+    vcover_if!(
+        KIND != KIND_PUSH && (STEP < 3 || KIND == KIND_PULL),
+        w_enemy,
+        "C13 witness: enemy piece captured after its supporter was pushed/pulled away"
+    );
     std::mem::forget(ns);
     std::mem::forget(gs);
     Verdict::Held
@@ -311,44 +323,57 @@ pub fn c13_pass<const STEP: usize, const KIND: u8>(inp: &Inp) -> Verdict {
 // C14
 // ------------------------------------------------------------------------------------------
 
+/// All eight words of two boards agree on the bit of square `q` (q is symbolic, so this is word
+/// equality; comparing whole words of up to four boards at once ran CBMC out of memory).
+fn bit_equal(b: &Board, pb: &arimaa_engine_step::PieceBoardState, q: u8) -> bool {
+    let g = board_of(pb);
+    model::bit(g.p1, q) == model::bit(b.p1, q)
+        && model::bit(g.t[0], q) == model::bit(b.t[0], q)
+        && model::bit(g.t[1], q) == model::bit(b.t[1], q)
+        && model::bit(g.t[2], q) == model::bit(b.t[2], q)
+        && model::bit(g.t[3], q) == model::bit(b.t[3], q)
+        && model::bit(g.t[4], q) == model::bit(b.t[4], q)
+        && model::bit(g.t[5], q) == model::bit(b.t[5], q)
+        && model::bit(pb.all_pieces, q) == model::bit(b.all(), q)
+}
+
 pub fn c14_move<const STEP: usize, const KIND: u8>(inp: &Inp) -> Verdict {
     let (s, gs, a, _t) = setup_move!(inp, STEP, KIND);
-    // the pre-state reports its own record faithfully
-    each!([0usize, 1usize, 2usize], j, {
-        if j < STEP {
-            assert!(
-                words_equal(&s.prev[j], gs.piece_board_for_step(j)),
-                "C14: pre-state does not report the recorded board"
-            );
+    // one symbolic earlier step index j <= STEP and one symbolic square q (both universally
+    // quantified by the solver): the board recorded for step j, before and after the action
+    let j = (s.aux % 4) as usize;
+    vassume!(j <= STEP);
+    let q = s.probe;
+    let want: Board = if j < STEP { s.prev[if j < 3 { j } else { 0 }] } else { s.board };
+    // the index is dispatched to a concrete one (a symbolic index into the record is a byte-wise
+    // array select for the model checker)
+    each!([0usize, 1, 2, 3], k, {
+        if k == j && k <= STEP {
+            assert!(bit_equal(&want, gs.piece_board_for_step(k), q), "C14: the pre-state does not report the recorded board");
         }
     });
-    assert!(words_equal(&s.board, gs.piece_board_for_step(STEP)), "C14: current step is not the current board");
     let ns = gs.take_action(&a);
     let nstep = ns.current_step();
     if STEP < 3 {
         assert!(nstep == STEP + 1, "C14: step count");
-        each!([0usize, 1usize, 2usize], j, {
-            if j < STEP {
+        each!([0usize, 1, 2, 3], k, {
+            if k == j && k <= STEP {
                 assert!(
-                    words_equal(&s.prev[j], ns.piece_board_for_step(j)),
-                    "C14: an earlier board of the turn changed"
+                    bit_equal(&want, ns.piece_board_for_step(k), q),
+                    "C14: an earlier board of the turn changed (or the board before this step was not recorded)"
                 );
             }
         });
-        assert!(
-            words_equal(&s.board, ns.piece_board_for_step(STEP)),
-            "C14: the board before this step was not recorded"
-        );
     } else {
         assert!(nstep == 0, "C14: turn did not restart");
         assert!(ns.unwrap_play_phase().previous_piece_boards().is_empty(), "C14: stale boards at turn start");
     }
     let cur = board_of(ns.piece_board());
     assert!(
-        words_equal(&cur, ns.piece_board_for_step(nstep)),
+        bit_equal(&cur, ns.piece_board_for_step(nstep), q),
         "C14: board at the current step is not the current board"
     );
-    vcover!(s.board.all().count_ones() >= 3, "C14 witness: at least three pieces on the board");
+    vcover_if!(STEP >= 2, j + 2 <= STEP && s.board.all().count_ones() >= 3, "C14 witness: an entry at least two steps back, three pieces on the board");
     std::mem::forget(ns);
     std::mem::forget(gs);
     Verdict::Held
@@ -362,7 +387,7 @@ pub fn c14_pass<const STEP: usize, const KIND: u8>(inp: &Inp) -> Verdict {
     let ns = gs.take_action(&Action::Pass);
     assert!(ns.current_step() == 0, "C14: pass did not restart the turn");
     assert!(ns.unwrap_play_phase().previous_piece_boards().is_empty(), "C14: stale boards after pass");
-    assert!(words_equal(&s.board, ns.piece_board_for_step(0)), "C14: step 0 after a pass is not the current board");
+    assert!(bit_equal(&s.board, ns.piece_board_for_step(0), s.probe), "C14: step 0 after a pass is not the current board");
     vcover!(s.board.all() != 0, "C14 witness: non-empty board");
     std::mem::forget(ns);
     std::mem::forget(gs);
